@@ -45,6 +45,20 @@ def _size_gt_remaining(p):
     return False
 
 
+def _size_checked_by_get(p):
+    """`body.get(size..)` answered None: the checked form of `size > body.len()` followed by `&body[size..]`.  As above the advance of the
+    slice is read off the path: the two header reads of the record come before the `get`."""
+    for i, (a, v) in enumerate(p["decisions"]):
+        if v == 0 and re.search(r"^discr\(slice::get\(.*Range(From)?\{start: .*ReadBytesExt::read_u16", a):
+            dp = p["dpos"][i]
+            effs = [e[1].split("::")[-1] for e, ep in zip(p["effects"], p["epos"]) if ep <= dp]
+            if "get" in effs:
+                k = len(effs) - 1 - effs[::-1].index("get")
+                if effs[:k].count("read_u16") >= 2 and "read_u16" not in effs[k:]:
+                    return True
+    return False
+
+
 def _flag_assigns(f, flag):
     out = []
     for bi, si, s in f.stmts():
@@ -290,6 +304,7 @@ def misuse_rules(facts, rep):
     CM = enum_variants(facts, "compression::CompressionMethod")
     inv = {v: k for k, v in CM.items()}
     rows = {"stored+level": False, "level-out-of-range": 0, "aes": False, "unsupported": False, "closed": False, "same-method-noop": False}
+    direct_seen = []
     for p in ps:
         o = outcome(p)
         comp = decided(p, r"^discr\(compression\)$")
@@ -308,7 +323,16 @@ def misuse_rules(facts, rep):
         if comp in (inv.get("Deflated"), inv.get("Bzip2"), inv.get("Zstd")):
             # the level must pass a fallible range check before the encoder is built: a `?` whose operand involves a range membership test
             # (spelled `clamp_opt(..).ok_or(..)?` or as a match on the Option -- possibly in a helper that E0 inlined here)
-            rc = [(a, v) for a, v in p["decisions"] if a.startswith("discr(") and _range_checked(facts, sw, a)]
+            # ... or as a plain `if range.contains(&level) {..} else { Err(..) }`, in place or in an inlined helper: the decision is then the
+            # membership test itself and its false edge must be the error
+            rc = [(a, v) for a, v in p["decisions"] if (a.startswith("discr(") and _range_checked(facts, sw, a)) or re.match(r"^(std::ops::)?RangeInclusive(::<[^>]*>)?::contains\(", a)]
+            direct = [(a, v) for a, v in rc if not a.startswith("discr(")]
+            if direct:
+                direct_seen.append(all("compression_level" in a for a, v in direct))
+                if any(v == 0 for a, v in direct) and o[0] == "Ok":
+                    rows["level-out-of-range"] = "bad"      # membership failed and the encoder is built all the same
+                if direct[-1][1] != 0 and o[0] == "Ok":
+                    continue                                    # in range: fine
             last = [x for x in p["decisions"] if x[0] != "#iter"][-1:]
             if rc and last == rc[-1:] and o[0] in ("ErrProp", "Err"):
                 # the path ends in an error right after the range test failed
@@ -327,12 +351,20 @@ def misuse_rules(facts, rep):
             cs = [t["callee"] for _, t in f[0].calls()]
             good = sum(1 for c in cs if re.search(pat, c)) == 2
             ok &= rep.check(good, rule, "range:%s" % nm, where(f[0], f[0].span), "range = [none(), best()] of the codec crate", "%s level range is computed from %s" % (nm, cs))
-    co = facts.one(r"^write::clamp_opt$")
-    ra = ret_alts(co)
-    uses_contains = bool(calls_matching(co, r"RangeInclusive::<Idx>::contains$")) or any(calls_matching(c_, r"RangeInclusive::<Idx>::contains$") for c_ in facts.closures_of(co))
-    some_arg = any(x[0] == "agg" and x[1] == "adt:Some" and x[3][0][1][0] == "arg" for a in ra for x in walk(a))
-    good = uses_contains and some_arg and facts.sigs.get(co.path, {}).get("output", "").startswith("std::option::Option<")
-    ok &= rep.check(good, rule, "clamp_opt", where(co, co.span), "clamp_opt yields Some(value) only through range.contains(value)", "clamp_opt changed: %s" % [show(a) for a in ra])
+    cos = facts.find(r"^write::clamp_opt$")
+    if cos:
+        co = cos[0]
+        ra = ret_alts(co)
+        uses_contains = bool(calls_matching(co, r"RangeInclusive::<Idx>::contains$")) or any(calls_matching(c_, r"RangeInclusive::<Idx>::contains$") for c_ in facts.closures_of(co))
+        some_arg = any(x[0] == "agg" and x[1] == "adt:Some" and x[3][0][1][0] == "arg" for a in ra for x in walk(a))
+        good = uses_contains and some_arg and facts.sigs.get(co.path, {}).get("output", "").startswith("std::option::Option<")
+        ok &= rep.check(good, rule, "clamp_opt", where(co, co.span), "clamp_opt yields Some(value) only through range.contains(value)", "clamp_opt changed: %s" % [show(a) for a in ra])
+    else:
+        # no Option-yielding clamp helper: the membership test must then be decided in switch_to itself (E0 inlines private helpers),
+        # on the requested level, in every compressing arm -- the rows above have checked what each edge does
+        good = len(direct_seen) >= 6 and all(direct_seen)
+        ok &= rep.check(good, rule, "clamp_opt", where(sw, sw.span), "the level's range membership is tested directly in switch_to (on compression_level or its default)",
+                        "neither a clamp helper nor a direct range-membership test of the requested level was found in switch_to")
     # ---- add_directory / add_symlink leave writing_to_file false; finish leaves the writer closed
     for nm in ("add_directory", "add_symlink"):
         f = facts.one(ZW + nm + "$")
@@ -356,7 +388,7 @@ def misuse_rules(facts, rep):
         "too-long": row(lambda p: decided(p, r"^Gt\(.*len\(.*, 65535\)") == 1),
         "truncated-header": row(lambda p: decided(p, r"^Lt\(.*len\(.*, 4\)") == 1),
         "zip64-id": row(lambda p: any(re.search(r"^ok\(ReadBytesExt::read_u16", a) and v == 1 for a, v in p["decisions"])),
-        "size-exceeds": row(lambda p: decided(p, r"^Gt\((\(ok\(ReadBytesExt::read_u16.* as usize\)|((From::from|Into::into)\()?ok\(ReadBytesExt::read_u16\([^,]*\)\)\)?), Sub\(") == 1 or _size_gt_remaining(p)),
+        "size-exceeds": row(lambda p: decided(p, r"^Gt\((\(ok\(ReadBytesExt::read_u16.* as usize\)|((From::from|Into::into)\()?ok\(ReadBytesExt::read_u16\([^,]*\)\)\)?), Sub\(") == 1 or _size_gt_remaining(p) or _size_checked_by_get(p)),
     }
     if "unreserved" not in facts.features:
         rows["reserved-low"] = row(lambda p: decided(p, r"^Le\(ok\(ReadBytesExt::read_u16.*, 31\)") == 1)
